@@ -456,7 +456,9 @@ class Zeroconf(QuietLogger):
         """
         assert self.loop is not None
         run_coro_with_timeout(
-            self.async_unregister_service(info), self.loop, _UNREGISTER_TIME * _REGISTER_BROADCASTS
+            await_awaitable(self.async_unregister_service(info)),
+            self.loop,
+            _UNREGISTER_TIME * _REGISTER_BROADCASTS,
         )
 
     async def async_unregister_service(self, info: ServiceInfo) -> Awaitable:
